@@ -27,7 +27,7 @@ MIN_EVENTS = {"statements": 100, "run_return": 100}
 CLEAN = "abcdefgXYZ019 _-.:;%$!?/#*&|@~+<>[]{}"
 WORDS = ["CREATE", "table", "not null", "--", "select", "Primary Key", "''", "x", "a;b", "DROP TABLE t;", "NULL", "default", "-- c", "check", "key", "in", "As"]
 BAD_FEATURES = {
-    "comma": [", ", ",", " ,"], "lpar": ["(", " (", "( "], "rpar": [")", " )"], "eq": ["=", "a=b", " = "], "tab": ["\t"],
+    "comma": [", ", ",", " ,"], "lpar": ["(", " (", "( ", "f(x", "(1"], "rpar": [")", " )", ")x", "1)", ":-)", ") "], "eq": ["=", "a=b", " = "], "tab": ["\t"],
     "nonascii": ["ï", "é", "日本", "ß", "Ж"], "blockopen": ["/*"], "blockclose": ["*/"],
 }
 KF_OF = {"comma": "C07:separator-respaced-in-literal", "lpar": "C07:separator-respaced-in-literal", "rpar": "C07:separator-respaced-in-literal",
@@ -96,12 +96,37 @@ def squash(s):
     return re.sub(r"[ \t]+", "", s) if isinstance(s, str) else s
 
 
-def explained(feat, lit, got):
+def frozen_respacing(ddl):
+    """FROZEN copy of the pinned pre-processor's separator re-spacing (parser.py: equal_without_space in pre_process_line and the
+    three 'add space everywhere except strings' substitutions of pre_process_data).  It is the *model of the known defect*
+    C07:separator-respaced-in-literal: a deviation is the known finding only if the reported literal is exactly what these
+    substitutions make of it; anything else on such a literal (e.g. a ')' that the pinned guard protects coming back
+    re-spaced) is an ordinary violation."""
+    out = []
+    for line in ddl.split("\n"):
+        line = re.sub(r"(\b)=", " = ", line)
+        qb = r"((?!\'[\w]*[\\']*[\w]*)"
+        qa = r"((?![\w]*[\\']*[\w]*\')))"
+        for num, (symbol, repl) in enumerate([(r"(,)+", " , "), (r"((\()){1}", " ( "), (r"((\))){1}", " ) ")], 1):
+            qau = qa.replace(")))", "))*)") if num == 2 else qa
+            line = re.sub(qb + symbol + qau, repl, line)
+        out.append(line)
+    return "\n".join(out)
+
+
+def explained(feat, lit, got, ddl=None):
     """does the listed mechanism explain the deviation?"""
     if feat in ("comma", "lpar", "rpar", "eq", "tab"):
         if isinstance(got, str) and feat == "tab":
             got = got.replace("pars_m_t", "")   # the literal '<TAB>' is swapped for a placeholder that only some positions restore
-        return isinstance(got, str) and squash(got) == squash(lit)
+            return squash(got) == squash(lit)
+        if not (isinstance(got, str) and squash(got) == squash(lit)):
+            return False
+        if ddl is None:
+            return True
+        # exactly the re-spacing of the pinned mechanism (the reported text, without a position prefix, occurs in the model's output)
+        core = got[got.index("'"):] if "'" in got else got
+        return core in frozen_respacing(ddl)
     if feat == "nonascii":
         if not isinstance(got, str):
             return False
@@ -152,7 +177,7 @@ def check_case(ctx, case):
         return
     if got != exp or type(got) is not type(exp):
         k = None
-        if feat and explained(feat, exp, got):
+        if feat and explained(feat, exp, got, ddl):
             k = kfkey
         elif feat == "eq" and pos == "tblprop" and isinstance(got, str) and squash(got) == squash(lit.split("=")[-1]):
             k = "C07:equals-in-tblproperties-value"
@@ -198,7 +223,7 @@ def run_shard(ctx):
         check_case(ctx, {"gen": "clean", "literal": lit, "position": rng.choice(positions)})
         if j == 0:
             ctx.sample({"literal": lit, "ddl": POS["default"][0].format(L=lit)})
-    for j in range(ctx.budget(400, 8000)):
+    for j in range(ctx.budget(900, 16000)):
         lit, feat = gen_bad(rng)
         check_case(ctx, {"gen": "known_bad_feature", "literal": lit, "position": rng.choice(positions), "feature": feat})
     # purely numeric defaults -> int of the same value
